@@ -132,3 +132,15 @@ def run(ctx):
     if rep["err_steps"] == 0 or rep["err_steps"] == rep["steps"] or rep["roundtrips"] == 0 or rep3["max_sel_depth"] < 3:
         raise vlib.ToolError("vacuity: replay exercised err=%d of %d steps, %d read-backs" % (rep["err_steps"], rep["steps"], rep["roundtrips"]))
     ctx.exhaustive = False
+
+    # 4. binding self-tests: a deliberately wrong projection must be reported by the replay
+    # comparison, and a corrupted recorded tree must be rejected by the trace validator
+    st = vlib.run_driver("drv_ops", ["replay", "--cases", sim, "--selftest", "true"], env=ctx.env(), timeout=3000)
+    if not any(m["level"] == "strict" for m in st["mismatches"]):
+        raise vlib.ToolError("binding self-test failed: a wrong projection was not reported")
+    tr3 = ctx.path("corrupt.ndjson")
+    vlib.run_driver("drv_ops", ["random", "--n", 2, "--len", 30, "--out", tr3, "--corrupt", "true"], env=ctx.env())
+    res = vlib.validate_trace(ob.SPEC, "Trace_ObjectOps", tr3, cfg="Trace_ObjectOps.cfg")
+    if res["accepted"]:
+        raise vlib.ToolError("binding self-test failed: a corrupted recorded object was accepted by Trace_ObjectOps")
+    ctx.extra_cov["binding_selftests"] = "wrong projection reported by replay; corrupted trace rejected at line %s" % res["line"]
